@@ -626,4 +626,109 @@ impl<K: KdfTrait> Drop for ExporterSecret<K> {
     dict(name='c02-key-expand-half-buffer', expect=[('C02', 'R02.5')],
          note='only the first half of the AEAD key is derived, the rest stays zero',
          edits=[(SETUP, '.labeled_expand(&suite_id, b"key", sched_context, key.0.as_mut_slice())', '.labeled_expand(&suite_id, b"key", sched_context, { let n = key.0.len() / 2; &mut key.0.as_mut_slice()[..n] })')]),
+    # ------------------------------------------------------------------ C03
+    dict(name='c03-eae-prk-typo', expect=[('C03', 'R03.1')],
+         note='label "eae-prk" on both sides',
+         edits=[(KDF, 'labeled_extract::<Kdf>(&[], suite_id, b"eae_prk", ikm);', 'labeled_extract::<Kdf>(&[], suite_id, b"eae-prk", ikm);')]),
+    dict(name='c03-dh-concat-order-both-sides', expect=[('C03', 'R03.2')],
+         note='dh = DH(skS,pkR) || DH(skE,pkR) on both sides (Auth modes only)',
+         edits=[(DHKEM, """                        MAX_PUBKEY_SIZE,
+                        &kex_res_eph.to_bytes(),
+                        &kex_res_identity.to_bytes()
+                    );
+                    let concatted_secrets = &concatted_secrets_buf[..concatted_secret_size];
+
+                    // The "authed shared secret" is derived from the KEX of the ephemeral input
+                    // with the recipient pubkey, and the KEX of the identity input with the
+                    // recipient pubkey. The HKDF-Expand call only errors if the output values are""", """                        MAX_PUBKEY_SIZE,
+                        &kex_res_identity.to_bytes(),
+                        &kex_res_eph.to_bytes()
+                    );
+                    let concatted_secrets = &concatted_secrets_buf[..concatted_secret_size];
+
+                    // The "authed shared secret" is derived from the KEX of the ephemeral input
+                    // with the recipient pubkey, and the KEX of the identity input with the
+                    // recipient pubkey. The HKDF-Expand call only errors if the output values are"""),
+                (DHKEM, """                            MAX_PUBKEY_SIZE,
+                            &kex_res_eph.to_bytes(),
+                            &kex_res_identity.to_bytes()""", """                            MAX_PUBKEY_SIZE,
+                            &kex_res_identity.to_bytes(),
+                            &kex_res_eph.to_bytes()""")]),
+    dict(name='c03-p521-mask-ff', expect=[('C03', 'R03.3')],
+         note='P-521 DeriveKeyPair mask 0xFF: different keys than the RFC (and ~127 rejections on average); p521 not in default features',
+         edits=[(NIST, "    0x01           // RFC 9180 §7.1.3: The `bitmask` in DeriveKeyPair to be 0x01 for P-521", "    0xFF           // RFC 9180 §7.1.3: The `bitmask` in DeriveKeyPair to be 0x01 for P-521")]),
+    dict(name='c03-counter-two-bytes', expect=[('C03', 'R03.3')],
+         note='candidate info = [counter, 0]',
+         edits=[(NIST, '.labeled_expand(suite_id, b"candidate", &[counter], &mut buf)', '.labeled_expand(suite_id, b"candidate", &[counter, 0], &mut buf)')]),
+    dict(name='c03-loop-0-to-254', expect=[('C03', 'R03.3')],
+         note='only 255 attempts',
+         edits=[(NIST, "for counter in 0u8..=255 {", "for counter in 0u8..255 {")]),
+    dict(name='c03-kem-paired-with-wrong-kdf', expect=[('C03', 'R03.2')],
+         note='DHKEM(P-384) keyed with HKDF-SHA256 in extract_and_expand only',
+         edits=[(DHKEM, """    crate::dhkex::ecdh_nistp::p384::DhP384,
+    crate::kdf::HkdfSha384,""", """    crate::dhkex::ecdh_nistp::p384::DhP384,
+    crate::kdf::HkdfSha256,""")]),
+    dict(name='c03-kem-context-without-pkR-both-sides', expect=[('C03', 'R03.2')],
+         note='kem_context = enc only (base mode), on both sides',
+         edits=[(DHKEM, """                    let (kem_context_buf, kem_context_size) = concat_with_known_maxlen!(
+                        MAX_PUBKEY_SIZE,
+                        &encapped_key.to_bytes(),
+                        &pk_recip.to_bytes()
+                    );
+                    let kem_context = &kem_context_buf[..kem_context_size];
+
+                    // The "unauthed shared secret" is derived from just the KEX of the ephemeral
+                    // input with the recipient pubkey. The HKDF-Expand call only errors if the""", """                    let (kem_context_buf, kem_context_size) = concat_with_known_maxlen!(
+                        MAX_PUBKEY_SIZE,
+                        &encapped_key.to_bytes()
+                    );
+                    let kem_context = &kem_context_buf[..kem_context_size];
+
+                    // The "unauthed shared secret" is derived from just the KEX of the ephemeral
+                    // input with the recipient pubkey. The HKDF-Expand call only errors if the"""),
+                (DHKEM, """                        let (kem_context_buf, kem_context_size) = concat_with_known_maxlen!(
+                            MAX_PUBKEY_SIZE,
+                            &encapped_key.to_bytes(),
+                            &pk_recip.to_bytes()
+                        );
+                        let kem_context = &kem_context_buf[..kem_context_size];
+
+                        // The "unauthed shared secret" is derived from just the KEX of the ephemeral""", """                        let (kem_context_buf, kem_context_size) = concat_with_known_maxlen!(
+                            MAX_PUBKEY_SIZE,
+                            &encapped_key.to_bytes()
+                        );
+                        let kem_context = &kem_context_buf[..kem_context_size];
+
+                        // The "unauthed shared secret" is derived from just the KEX of the ephemeral""")]),
+    dict(name='c03-x25519-sk-label', expect=[('C03', 'R03.3')],
+         note='X25519 DeriveKeyPair uses label "candidate"',
+         edits=[(X25519, '.labeled_expand(suite_id, b"sk", &[], &mut buf)', '.labeled_expand(suite_id, b"candidate", &[], &mut buf)')]),
+    dict(name='c03-derive-uses-full-suite-style-id', expect=[('C03', 'R03.3')],
+         note='Kem::derive_keypair passes a suite id of another KEM',
+         edits=[(DHKEM, """                    let suite_id = kem_suite_id::<Self>();
+                    <$dhkex as DhKeyExchange>::derive_keypair::<$kdf>(&suite_id, ikm)""", """                    let suite_id = *b"KEM\x00\x20";
+                    <$dhkex as DhKeyExchange>::derive_keypair::<$kdf>(&suite_id, ikm)""")]),
+    dict(name='c03-encapped-key-is-recipient-key', expect=[('C03', 'R03.2')],
+         note='enc = pkR instead of pk(skE) inside kem_context only',
+         edits=[(DHKEM, """                    let (kem_context_buf, kem_context_size) = concat_with_known_maxlen!(
+                        MAX_PUBKEY_SIZE,
+                        &encapped_key.to_bytes(),
+                        &pk_recip.to_bytes(),
+                        &pk_sender_id.to_bytes()
+                    );
+                    let kem_context = &kem_context_buf[..kem_context_size];
+
+                    // We want to do an authed encap. Do a DH exchange between the sender identity
+                    // secret key and the recipient's pubkey
+                    let kex_res_identity = <$dhkex as DhKeyExchange>::dh(sk_sender_id, pk_recip)""", """                    let (kem_context_buf, kem_context_size) = concat_with_known_maxlen!(
+                        MAX_PUBKEY_SIZE,
+                        &pk_recip.to_bytes(),
+                        &pk_recip.to_bytes(),
+                        &pk_sender_id.to_bytes()
+                    );
+                    let kem_context = &kem_context_buf[..kem_context_size];
+
+                    // We want to do an authed encap. Do a DH exchange between the sender identity
+                    // secret key and the recipient's pubkey
+                    let kex_res_identity = <$dhkex as DhKeyExchange>::dh(sk_sender_id, pk_recip)""")]),
 ]
